@@ -33,6 +33,10 @@ CLAIMED = {
    text="Deductive proof per function of the invoice update logic: at every producer of a settle resolution in updateMpp / updateLegacy / resolveReplayedHtlc the full conjunction of the statement holds (invoice open, payment address equal to the invoice's, a non-zero declared total >= invoice value, every accepted HTLC of the set declares that same total (loop step relation), set sum >= total, expiry >= height + both CLTV deltas, not a hold invoice; for replays the stored preimage matches the hash); every accept resolution satisfies the same address / total / CLTV conditions; the invoice and HTLC transition functions (getUpdatedInvoiceState, getUpdatedHtlcState, canCancelSingleHtlc) only move forward (no exit from settled / canceled, a settled HTLC is never canceled, a hold invoice settles only with a preimage hashing to the payment hash); settleHodlInvoice / addHTLCs / cancelInvoice / cancelHTLCs change memory only after the updater accepted the change, with the verdict of those functions, and the recorded amount paid is the sum over exactly the HTLCs that were settled (loop step relations).",
    note="A-dom: heights in [0, 2^30], CLTV deltas in [0, 2^20], invoice state is one of the four declared values; sums of amounts use Go's uint64 wrap-around explicitly. Opaque: InvoiceUpdater (DB), Preimage.Matches / Hash, bytes.Equal, AMP reconstruction (reconstructAMPPreimages is only required to report no failure), HTLCSet. Not decided: registry-level timing (hold invoice timeouts, concurrent links), that stored invoices satisfy hash = H(preimage), SQL/KV store equivalence, replay determinism beyond the verdict table of resolveReplayedHtlc.",
    ref="DESIGN.md §4 C15"),
+ "C06": dict(
+   text="Deductive proof per function. shachain: getBit, getPrefix (with a bit-vector lemma about Go's & operator), countTrailingZeros (loop invariant), newIndex equal their arithmetic specs; deriveBitTransformations succeeds exactly when the source index is the target with its low bits cleared and only emits positions whose bit is set; RevocationStore.AddNextEntry: every bucket below the new element's bucket is checked against the derived value (loop step relation: derive succeeded and isEqual returned true, and the loop covers all of them), the element is stored at bucket ctz(index), lenBuckets becomes max(old, b+1), index decreases by one, every other bucket is unchanged (quantified frame postcondition), nothing changes on error; LookUp derives from bucket i < lenBuckets with the requested index; no out-of-range access (nopanic) except the listed finding F2. lnwallet: RevokeCurrentCommitment returns a non-nil revoke_and_ack only if UpdateCommitment returned nil for the commitment at height+1 and the message is generateRevocation(old height); generateRevocation takes the secret at AtIndex(height) and the next point from AtIndex(height+2); ReceiveRevocation inserts the received secret into the store and compares the derived point with the stored one before any state is changed, and advances memory only after AdvanceCommitChainTail returned nil.",
+   note="Known finding F2 (store.index == 0 -> bucket 48 out of range) is reported as KNOWN-FINDING. Assumed: element.derive's frame (modifies-assumed nothing: it writes only local buffers and a fresh element), sha256/chainhash opaque; the hash-chain content of derive (flip bit, hash) is not connected to a spec function, so 'reproduces each secret exactly' is decided only at the level of the store algorithm's control and index arithmetic, not of the 48-bit whole-store theorem; Encode/NewRevocationStoreFromBytes round trip not covered; ProcessChanSyncMsg retransmission belongs to C03.",
+   ref="DESIGN.md §4 C06"),
 }
 
 NOT_APPLICABLE = {
